@@ -18,38 +18,59 @@ open PyElf PyElf.Spec PyElf.Model PyElf.Proofs
 theorem construct_error_closed (env : Env) (data : Bytes) :
     (∃ f, openElf env structsFor machineClassOfVal data = .ok f) ∨
     openElf env structsFor machineClassOfVal data = .error .elfError ∨
-    openElf env structsFor machineClassOfVal data = .error .elfParseError := by
-  sorry
+    openElf env structsFor machineClassOfVal data = .error .elfParseError :=
+  ElfErrors.openElf_error_closed env data
+
+/- The first draft of the two bounds below quantified over an arbitrary `c : ElfCfg` and an
+   arbitrary header value (`getSection env (elfStructs c) data hdr shstr i = .ok r → 40*i+40 ≤ len`).
+   That is false for degenerate configurations no file can select: with
+   `c = ⟨true, 0, "default", false, false⟩` the word size is 0, `Elf_Shdr.sizeof = 16` and
+   `Elf_Phdr.sizeof = 8`; on `data = 32 zero bytes`,
+   `hdr = {e_shentsize: 16, e_shoff: 16, e_shnum: 2, e_phentsize: 8, e_phoff: 0}`,
+   `shstr = some {sh_offset: 0}`: `numSections = ok 2`, `getSection … 0` succeeds (40 > 32) and
+   `getSegment … 3` succeeds (32*3+32 > 32).  The statements here are about a file `openElf`
+   returned for `data` — still every byte string, no well-formedness hypothesis.  The
+   configuration-generic bounds (`sizeof Shdr * (i+1) ≤ len`, `sizeof Phdr * (i+1) ≤ len`) are
+   `Proofs.ElfErrors.getSection_ok_bound` / `Proofs.ElfErrors.getSegment_ok_bound`. -/
 
 /-- sections: an index at which `get_section` succeeds lies within the file — so enumerating
     `range(num_sections())` makes at most `len/40 + 1` successful steps before it raises,
     whatever count the (possibly corrupt) header or the extended-numbering escape claims -/
-theorem section_steps_bounded (env : Env) (c : ElfCfg) (data : Bytes) (hdr : Val) (shstr : Option Val)
+theorem section_steps_bounded (env : Env) (data : Bytes) (f : ElfFile)
+    (hf : openElf env structsFor machineClassOfVal data = .ok f)
     (n i : Nat) (r : String × Bytes × Val)
-    (hn : numSections env (elfStructs c) data hdr = .ok n) (hi : i < n)
-    (h : getSection env (elfStructs c) data hdr shstr i = .ok r) :
-    40 * i + 40 ≤ data.length := by
-  sorry
+    (hn : numSections env f.S data f.header = .ok n) (hi : i < n)
+    (h : getSection env f.S data f.header f.shstr i = .ok r) :
+    40 * i + 40 ≤ data.length :=
+  ElfErrors.openElf_getSection_bound hf hn hi h
 
 /-- segments: likewise (this is the statement the PN_XNUM defect violated: with e_phoff = 0 and
     e_phentsize = 0 every index succeeded) -/
-theorem segment_steps_bounded (env : Env) (c : ElfCfg) (data : Bytes) (hdr : Val) (shstr : Option Val)
+theorem segment_steps_bounded (env : Env) (data : Bytes) (f : ElfFile)
+    (hf : openElf env structsFor machineClassOfVal data = .ok f)
     (i : Nat) (r : String × Val)
-    (h : getSegment env (elfStructs c) data hdr shstr i = .ok r) :
-    32 * i + 32 ≤ data.length := by
-  sorry
+    (h : getSegment env f.S data f.header f.shstr i = .ok r) :
+    32 * i + 32 ≤ data.length :=
+  ElfErrors.openElf_getSegment_bound hf h
 
 /-- enumeration stops at the first failing index: `mapM` over `range n` evaluates `f` on
     `0 … k` where `k` is the first failure, so the bounds above bound the work -/
 theorem mapM_range_stops {α : Type} (f : Nat → R α) (n k : Nat) (e : Err) (hk : k < n)
     (hfail : f k = .error e) (hok : ∀ j < k, ∃ v, f j = .ok v) :
-    (List.range n).mapM f = .error e := by
-  sorry
+    (List.range n).mapM f = .error e :=
+  ElfErrors.mapM_range_stops f n k e hk hfail hok
 
 /-- the section-link recursion of `_make_section` (symtab → strtab, versym → symtab → strtab) never
-    needs more than the fuel the model gives it: `outOfFuel` is unreachable from `get_section` -/
+    needs more than the fuel the model gives it: `outOfFuel` is unreachable from `get_section`
+    (for every configuration and every header value, opened file or not) -/
 theorem make_section_fuel_sufficient (env : Env) (c : ElfCfg) (data : Bytes) (hdr : Val) (shstr : Option Val) (i : Nat) :
-    getSection env (elfStructs c) data hdr shstr i ≠ .error .outOfFuel := by
-  sorry
+    getSection env (elfStructs c) data hdr shstr i ≠ .error .outOfFuel :=
+  ElfErrors.getSection_nf env c data hdr shstr i
+
+/-- the same for the structures of a file `openElf` returned -/
+theorem make_section_fuel_sufficient_opened (env : Env) (data : Bytes) (f : ElfFile)
+    (hf : openElf env structsFor machineClassOfVal data = .ok f) (i : Nat) :
+    getSection env f.S data f.header f.shstr i ≠ .error .outOfFuel :=
+  ElfErrors.openElf_getSection_nf hf i
 
 end PyElf.Props.C19
